@@ -359,6 +359,40 @@ fn semantics_all_backends() {
     t.finish("semantics");
 }
 
+#[test]
+fn statement_less_adf() {
+    // the ADF without statements is well-formed: one (empty) interpretation is grounded, complete, two-valued and stable
+    let mut t = Tally::default();
+    let want: BTreeSet<I3> = [vec![]].into_iter().collect();
+    for (hn, heu) in [("simple", Heuristic::Simple), ("mmpv", Heuristic::MinModMinPathsMaxVarImp), ("mmvp", Heuristic::MinModMaxVarImpMinPaths), ("rand", Heuristic::Rand)] {
+        let res = with_timeout(10, move || {
+            let mut adf = Adf::default();
+            let (s, r) = crossbeam_channel::bounded(1000);
+            let h = std::thread::spawn(move || r.iter().take(5).collect::<Vec<Vec<Term>>>());
+            adf.stable_nogood_channel(heu, s);
+            let st = h.join().unwrap();
+            let mut adf = Adf::default();
+            let (s, r) = crossbeam_channel::bounded(1000);
+            let h = std::thread::spawn(move || r.iter().take(5).collect::<Vec<Vec<Term>>>());
+            adf.two_val_nogood_channel(heu, s);
+            (st, h.join().unwrap())
+        });
+        match res {
+            None => t.check(&format!("empty ADF nogood {hn} terminates"), false, || "Adf::default()".into()),
+            Some((st, tv)) => {
+                t.set_eq(&format!("empty ADF nogood {hn} stable"), st, &want, "Adf::default()");
+                t.set_eq(&format!("empty ADF nogood {hn} two-valued"), tv, &want, "Adf::default()");
+            }
+        }
+    }
+    let mut adf = Adf::default();
+    t.check("empty ADF grounded", adf.grounded().is_empty(), || String::new());
+    t.set_eq("empty ADF complete", adf.complete().collect(), &want, "Adf::default()");
+    t.set_eq("empty ADF stable", adf.stable().collect(), &want, "Adf::default()");
+    t.set_eq("empty ADF heu_a", adf.stable_count_optimisation_heu_a().collect(), &want, "Adf::default()");
+    t.finish("statement-less ADF");
+}
+
 fn eval_node(b: &Bdd, t: Term, a: &[bool]) -> bool {
     let mut cur = t;
     loop {
